@@ -106,6 +106,11 @@ RECURSIVE Zip3(_, _, _, _, _)
 Zip3(t, x, y, a, b) ==
   IF IsLeaf(t) THEN [t EXCEPT !.v = [j \in 1..Len(t.v) |-> Add(Mul(x.v[j], a), Mul(y.v[j], b))]]
   ELSE [t EXCEPT !.r = [k \in 1..Len(t.r) |-> Zip3(t.r[k], x.r[k], y.r[k], a, b)]]
+\* t := x*a + y*b with array coefficients
+RECURSIVE Zip4(_, _, _, _, _)
+Zip4(t, x, a, y, b) ==
+  IF IsLeaf(t) THEN [t EXCEPT !.v = [j \in 1..Len(t.v) |-> Add(Mul(x.v[j], a.v[j]), Mul(y.v[j], b.v[j]))]]
+  ELSE [t EXCEPT !.r = [k \in 1..Len(t.r) |-> Zip4(t.r[k], x.r[k], a.r[k], y.r[k], b.r[k])]]
 \* values of y with the leaf bookkeeping (cells) of a fresh array
 RECURSIVE Unbound(_)
 Unbound(x) == IF IsLeaf(x) THEN [x EXCEPT !.cell = 0] ELSE [x EXCEPT !.r = [k \in 1..Len(x.r) |-> Unbound(x.r[k])]]
@@ -192,6 +197,9 @@ NVecOps == {"NVAdd", "NVSub", "NVMul", "NVDiv"}
 NScalOps == {"NSAdd", "NSSub", "NSMul", "NSDiv"}
 NSym(k) == CASE k \in {"NVAdd", "NSAdd"} -> "+" [] k \in {"NVSub", "NSSub"} -> "-" [] k \in {"NVMul", "NSMul"} -> "*" [] k \in {"NVDiv", "NSDiv"} -> "/"
 
+TempT(Rg, q) == IotaT(ZerosOf(Rg), 10 * q + 1)
+SymOf(i) == << "+", "-", "*", "/" >>[i + 1]
+NMultiKinds == {"NXapybM", "NXapybSM", "NSapybM", "NVOpM", "NBOpM"}
 \* store a new value tree for slot t (same index ranges): bound leaves write through to the block
 WithTree(st, t, x) == [st EXCEPT !.s[t] = x, !.blk = IF t = 1 THEN PushBlk(st.blk, x) ELSE st.blk]
 
@@ -224,13 +232,31 @@ NApply(D, st, op) ==
     [] k = "NSapyb" -> IF SameShape(X, Y) THEN NR(WithTree(st, t, Zip3(X, X, Y, op.a, op.b))) ELSE NE(st)
     [] k = "NXapyb" ->   \* this.xapyb(x = other, a, y = other, b)
          IF SameShape(X, Y) THEN NR(WithTree(st, t, Zip3(X, Y, Y, op.a, op.b))) ELSE NE(st)
+    \* Operands that are temporaries made by the driver: operand q has the index range op.S[q] (the range of the
+    \* target, or -- one operand position at a time -- a smaller / larger / shifted outer range or a range that
+    \* differs only in an inner dimension) and the values 10q+1, 10q+2, .. in row-major order.
+    \* "index ranges don't match" must be reported whichever operand is the odd one, and nothing changes then.
+    [] k = "NXapybM" ->     \* this.xapyb(x, a, y, b), array coefficients
+         IF \A q \in 1..4 : SameShape(TempT(op.S[q], q), X)
+         THEN NR(WithTree(st, t, Zip4(X, TempT(op.S[1], 1), TempT(op.S[2], 2), TempT(op.S[3], 3), TempT(op.S[4], 4)))) ELSE NE(st)
+    [] k = "NXapybSM" ->    \* this.xapyb(x, a, y, b), scalar coefficients a, b
+         IF \A q \in 1..2 : SameShape(TempT(op.S[q], q), X)
+         THEN NR(WithTree(st, t, Zip3(X, TempT(op.S[1], 1), TempT(op.S[2], 2), op.a, op.b))) ELSE NE(st)
+    [] k = "NSapybM" ->     \* this.sapyb(a, y, b), array coefficients  (= xapyb(*this, a, y, b))
+         IF \A q \in 1..3 : SameShape(TempT(op.S[q], q), X)
+         THEN NR(WithTree(st, t, Zip4(X, X, TempT(op.S[1], 1), TempT(op.S[2], 2), TempT(op.S[3], 3)))) ELSE NE(st)
+    [] k = "NVOpM" ->       \* this op= w (op.a: 0 + 1 - 2 * 3 /): grows like the operators with the other array
+         LET Z == VecOpT(X, TempT(op.S[1], 1), SymOf(op.a)) IN
+         IF SameShape(Z, X) THEN NR(WithTree(st, t, Z)) ELSE NRS([st EXCEPT !.s[t] = Z])
+    [] k = "NBOpM" ->       \* slot t := this op w (binary operator): a new array
+         NRS([st EXCEPT !.s[t] = VecOpT(Unbound(X), TempT(op.S[1], 1), SymOf(op.a))])
     [] k = "NMemSet" -> NR([st EXCEPT !.blk[op.a] = op.b, !.s[1] = PullBlk(st.s[1], [st.blk EXCEPT ![op.a] = op.b])])
     [] k = "NContig" -> NRV(st, << >>)
     [] k = "NNop" -> NR(st)
 
 NKinds == {"NDefault", "NConstruct", "NView", "NCopy", "NAssign", "NMove", "NSwap", "NRecycle", "NResize", "NGrow", "NRowResize",
            "NFill", "NIotaAll", "NIterAll", "NSetAt", "NGetAt", "NSet", "NSapyb", "NXapyb", "NMemSet", "NContig", "NNop"}
-          \cup NVecOps \cup NScalOps
+          \cup NVecOps \cup NScalOps \cup NMultiKinds
 
 RECURSIVE CellsZero(_)
 CellsZero(ob) == IF IsLeaf(ob) THEN ob.cell = 0 ELSE \A k \in 1..Len(ob.r) : CellsZero(ob.r[k])
@@ -246,6 +272,8 @@ NEnabled(D, st, op) ==
   /\ op.k = "NRowResize" => HasLeaf(X, op.c)
   /\ op.k = "NMemSet" => (op.a >= 1 /\ op.a <= Len(st.blk))
   /\ op.k \in {"NSetAt", "NGetAt"} => Len(op.c) = D
+  /\ op.k \in NMultiKinds => Len(op.S) = (CASE op.k = "NXapybM" -> 4 [] op.k = "NXapybSM" -> 2 [] op.k = "NSapybM" -> 3 [] OTHER -> 1)
+  /\ op.k \in {"NVOpM", "NBOpM"} => op.a \in 0..3
 
 (***************************************************************************)
 (* observation of the real objects                                          *)
